@@ -1,4 +1,5 @@
 """SCORERCHK / PADVAL / RESERVED0: compact bigram connectors (C07)."""
+import re
 from effects import Effects
 from facts import EngineError
 from flow import calls_named, bool_switch_targets
@@ -198,14 +199,243 @@ def avx2(ctx):
         px = defcall(fa, {"c": {"l": pos_final, "p": []}}) if pos_final is not None else None
         okxor = bool(px) and "xor_si256" in cname(px[1]) and \
             any(root_local(fa, a) == 3 for a in px[1]["args"])
-        ok = okptr and okmask and okkey and okcheckpos and okvalid and okxor
-        why = dict(ptr=okptr, cmpeq=okmask, key1=okkey, same_pos=okcheckpos, valid=okvalid, xor=okxor)
+        # base = bases[key1]: the other operand of the xor is a gather from `bases` indexed by
+        # key1 (parameter 2) under the mask key1 < bases_len; lanes masked out of the final
+        # gather contribute the constant 0; every gather uses the 4-byte scale of the tables
+        okbase = okzero = False
+        okscale = True
+        if okxor:
+            for a in px[1]["args"]:
+                g = defcall(fa, a)
+                if g and "mask_i32gather" in cname(g[1]) and "bases" in show(S.operand(g[1]["args"][1])):
+                    vm = defcall(fa, g[1]["args"][3])
+                    okbase = root_local(fa, g[1]["args"][2]) == 2 and bool(vm) and \
+                        "cmpgt_epi32" in cname(vm[1]) and \
+                        "bases_len" in show(S.operand(vm[1]["args"][0])) and \
+                        root_local(fa, vm[1]["args"][1]) == 2
+        z = defcall(fa, ft["args"][0])
+        if z and "set1_epi32" in cname(z[1]):
+            k0 = op_const(z[1]["args"][0])
+            okzero = k0 is not None and k0.get("int") == 0
+        for b0, t0 in fa.calls():
+            if "mask_i32gather" in cname(t0):
+                ga = (callee_of(t0) or {}).get("args") or []
+                k4 = op_const(t0["args"][4]) if len(t0["args"]) > 4 else None
+                sc = k4.get("int") if k4 else None
+                if sc is None:
+                    m4 = [re.match(r"const (\d+)", x) for x in ga]
+                    m4 = [int(m.group(1)) for m in m4 if m]
+                    sc = m4[0] if m4 else None
+                okscale = okscale and sc == 4
+        ok = okptr and okmask and okkey and okcheckpos and okvalid and okxor and okbase and okzero and okscale
+        why = dict(ptr=okptr, cmpeq=okmask, key1=okkey, same_pos=okcheckpos, valid=okvalid, xor=okxor,
+                   base_is_bases_at_key1=okbase, masked_lanes_are_zero=okzero, scale4=okscale)
     ctx.ob("SCORERCHK", "B|retrieve_cost|gather-masked-by-check==key1-and-valid-pos", ok,
            fn_loc(crate, p),
            "AVX2: the cost gather is masked by (gathered check == key1) AND (pos < checks.len() AND "
            "key1 < bases.len()), at the same pos = base ^ key2 as the check gather" if ok else
            "AVX2 retrieve_cost: the final gather is not masked by the check comparison and the "
            "position-validity mask (%s): unchecked or out-of-range lanes contribute costs" % why)
+
+
+ITER_TRANSPARENT = {"next", "into_iter", "iter", "deref", "as_slice", "as_ref", "borrow", "clone", "copied",
+                    "branch", "unwrap"}
+
+
+def _walk_source(fa, op):
+    """Follow an operand back towards the collection it was taken from.
+    -> (kind, where, call names passed on the way, tuple components projected on the way)
+    kind: 'arg' (where = parameter local) | 'zip' (where = block of the zip call) | 'other'."""
+    pl = op_place(op)
+    names, comps = [], []
+    for _ in range(60):
+        if pl is None:
+            return "other", None, names, comps
+        for e in reversed(pl["p"]):
+            if e != "*" and "f" in e and e.get("o") == "(tuple)":
+                comps.append(e["f"])
+        l = pl["l"]
+        d = fa.single_def(l)
+        if d is None:
+            if 1 <= l <= fa.arg_count:
+                return "arg", l, names, comps
+            return "other", l, names, comps
+        if d[2] == "call":
+            nm = (callee_of(d[3]) or {}).get("name")
+            if nm == "zip":
+                return "zip", d[0], names, comps
+            names.append(nm)
+            if not d[3]["args"]:
+                return "other", l, names, comps
+            pl = op_place(d[3]["args"][0])
+            continue
+        rv = d[3]
+        if rv["k"] in ("use", "cast"):
+            pl = op_place(rv["op"])
+        elif rv["k"] in ("ref", "rawptr"):
+            pl = rv["place"]
+        else:
+            return "other", l, names, comps
+    return "other", None, names, comps
+
+
+def _trace_param(fa, op, why):
+    """Parameter a lane operand is taken from, through (nested) zips without any adaptor."""
+    for _ in range(4):
+        kind, where, names, comps = _walk_source(fa, op)
+        extra = [n for n in names if n not in ITER_TRANSPARENT]
+        if extra:
+            why.append("iterator adaptor %s between the key slice and the loop" % "/".join(map(str, extra)))
+            return None
+        if kind == "arg":
+            return where
+        if kind != "zip" or len(comps) < 1:
+            why.append("operand does not come from a zip of the key slices")
+            return None
+        k = comps[-1]
+        zt = fa.term(where)
+        if k >= len(zt["args"]):
+            return None
+        op = zt["args"][k]
+    return None
+
+
+def _flatten_add(e, out):
+    if e[0] == "binop" and e[1] == "Add":
+        _flatten_add(e[2], out)
+        _flatten_add(e[3], out)
+    else:
+        out.append(e)
+
+
+def accum(ctx):
+    """ACCUM (C07, both build configurations): accumulate_cost is the sum, over every template
+    position, of the checked lookup of (left word's feature id at that position, right word's
+    feature id at the same position). Structurally:
+      * one retrieve_cost call, its key1 lanes taken from `keys1` and its key2 lanes from
+        `keys2`, zipped position by position with no adaptor (skip/rev/take/step_by) on either;
+      * the accumulator starts at zero and is only ever `accumulator + lookup result`;
+      * AVX2: the returned value is the sum of the eight lanes 0..7 of the accumulator, each
+        once (a lane left out drops every eighth template)."""
+    for cfg in ("A", "B"):
+        crate = ctx.facts(cfg).lib
+        E = Effects(crate)
+        p = SC + "Scorer::accumulate_cost"
+        if p not in crate.fns or not crate.fns[p].body:
+            raise EngineError("ACCUM: anchor lost: %s (%s)" % (p, cfg))
+        fa = E.fa(p)
+        S = Sym(E, fa, depth=60)
+        names = crate.fns[p].j.get("param_names") or []
+        rc = calls_named(fa, "retrieve_cost")
+        why = []
+        ok = len(rc) == 1 and len(rc[0][1]["args"]) == 3
+        if ok:
+            t = rc[0][1]
+            a1 = _trace_param(fa, t["args"][1], why)
+            a2 = _trace_param(fa, t["args"][2], why)
+            ok = (a1, a2) == (2, 3)
+            if not ok and not why:
+                why.append("key1 lanes come from parameter %s and key2 lanes from parameter %s" % (
+                    names[a1 - 1] if a1 and a1 - 1 < len(names) else a1,
+                    names[a2 - 1] if a2 and a2 - 1 < len(names) else a2))
+        else:
+            why.append("%d retrieve_cost calls" % len(rc))
+        ctx.ob("ACCUM", "%s|lanes-zipped-position-by-position" % cfg, ok, fn_loc(crate, p),
+               "(%s) every template position contributes lookup(keys1[i], keys2[i]): plain zip of the "
+               "two key slices" % cfg if ok else
+               "(%s) accumulate_cost does not pair keys1[i] with keys2[i] over all positions: %s"
+               % (cfg, "; ".join(why)))
+        if not rc:
+            continue
+        rb, rt = rc[0]
+        # the accumulator
+        why = []
+        if cfg == "A":
+            ret = S.place({"l": 0, "p": []})
+            ok = ret[0] == "phi"
+            acc = ret[1] if ok else None
+            if ok:
+                for (b, i, kind, payload) in fa.defs().get(acc, []):
+                    if kind == "call":
+                        ok = False
+                        why.append("accumulator assigned from a call")
+                        continue
+                    rv = payload
+                    if rv["k"] == "use":
+                        k = op_const(rv["op"])
+                        if k is not None:
+                            if k.get("int") != 0:
+                                ok = False
+                                why.append("accumulator starts at %s" % k.get("int"))
+                            continue
+                        e = strip_casts(S.operand(rv["op"]))
+                        leaves = []
+                        _flatten_add(e[1] if e[0] == "proj" else e, leaves)
+                        lk = [x for x in leaves if x[0] == "call" and short(x[1]) == "retrieve_cost"
+                              or (x[0] == "proj" and x[1][0] == "call" and short(x[1][1]) == "retrieve_cost")
+                              or (x[0] == "ap" and x[1].root == ("call", rb))]
+                        ph = [x for x in leaves if x[0] == "phi" and x[1] == acc]
+                        if not (len(leaves) == 2 and len(lk) == 1 and len(ph) == 1):
+                            ok = False
+                            why.append("accumulator assigned %s" % show(e)[:80])
+                    else:
+                        ok = False
+                        why.append("accumulator assigned by %s" % rv["k"])
+            else:
+                why.append("returned value is %s" % show(ret)[:80])
+        else:
+            ret = S.place({"l": 0, "p": []})
+            leaves = []
+            _flatten_add(ret, leaves)
+            lanes = []
+            accs = set()
+            ok = True
+            for x in leaves:
+                if x[0] == "call" and short(x[1]) == "_mm256_extract_epi32" and x[2] and x[2][0][0] == "phi":
+                    ct = fa.term(x[3])
+                    ga = (callee_of(ct) or {}).get("args") or []
+                    m = re.match(r"const (\d+)", ga[0]) if ga else None
+                    lanes.append(int(m.group(1)) if m else None)
+                    accs.add(x[2][0][1])
+                else:
+                    ok = False
+                    why.append("returned sum contains %s" % show(x)[:60])
+            if sorted(l for l in lanes if l is not None) != list(range(8)) or len(lanes) != 8:
+                ok = False
+                why.append("lanes summed: %s (expected 0..7 once each)" % lanes)
+            if len(accs) != 1:
+                ok = False
+                why.append("lanes taken from %d different vectors" % len(accs))
+            acc = next(iter(accs)) if len(accs) == 1 else None
+            if acc is not None:
+                for (b, i, kind, payload) in fa.defs().get(acc, []):
+                    if kind == "assign" and payload["k"] == "use":
+                        dc0 = defcall(fa, payload["op"])
+                        if dc0 is not None:
+                            kind, payload = "call", dc0[1]
+                    if kind != "call":
+                        ok = False
+                        why.append("accumulator assigned by a non-call")
+                        continue
+                    nm = cname(payload)
+                    if nm == "_mm256_set1_epi32":
+                        k = op_const(payload["args"][0])
+                        if k is None or k.get("int") != 0:
+                            ok = False
+                            why.append("accumulator does not start at zero")
+                    elif nm == "_mm256_add_epi32":
+                        rs = [root_local(fa, a) for a in payload["args"]]
+                        dc = [defcall(fa, a) for a in payload["args"]]
+                        if not (acc in rs and any(d and d[0] == rb for d in dc)):
+                            ok = False
+                            why.append("accumulator updated from something other than sums + lookup")
+                    else:
+                        ok = False
+                        why.append("accumulator assigned by %s" % nm)
+        ctx.ob("ACCUM", "%s|sum-starts-at-zero-adds-every-lookup" % cfg, ok, fn_loc(crate, p),
+               "(%s) the result is 0 + the sum of all lookups%s" % (
+                   cfg, " over the eight lanes 0..7" if cfg == "B" else "") if ok else
+               "(%s) accumulate_cost does not return the plain sum of the lookups: %s" % (cfg, "; ".join(why)))
 
 
 def padval(ctx):
@@ -565,6 +795,7 @@ def run(ctx):
     scorer_build(ctx)
     portable(ctx)
     avx2(ctx)
+    accum(ctx)
     padval(ctx)
     reserved0(ctx)
     ctx.assume("SCORERCHK decides that the collision check cannot be bypassed in either build; "
